@@ -53,6 +53,69 @@ def _worker(args):
         return (kind + "-crash", idx, {"error": "%s: %s" % (type(e).__name__, e), "trace": traceback.format_exc()[-3000:]})
 
 
+def _job_id(job):
+    from pyvc import engine
+
+    k, i = job[0], job[1]
+    return engine.CONTRACTS[i].id if k == "contract" else (engine.BOUNDED[i].id if k == "bounded" else engine.PROTOCOLS[i].id)
+
+
+def _child(conn, job):
+    try:
+        import resource
+
+        lim = int(float(os.environ.get("VERIF_MEM_GB", "10")) * 2**30)
+        soft, hard = resource.getrlimit(resource.RLIMIT_AS)
+        resource.setrlimit(resource.RLIMIT_AS, (lim if hard == resource.RLIM_INFINITY else min(lim, hard), hard))
+    except Exception:  # noqa: BLE001
+        pass
+    try:
+        r = _worker(job)
+    except MemoryError:
+        r = (job[0] + "-crash", job[1], {"error": "%s: MemoryError under the %s GiB per-job limit" % (_job_id(job), os.environ.get("VERIF_MEM_GB", "10")), "trace": ""})
+    except BaseException as e:  # noqa: BLE001
+        r = (job[0] + "-crash", job[1], {"error": "%s: %s: %s" % (_job_id(job), type(e).__name__, e), "trace": traceback.format_exc()[-3000:]})
+    try:
+        conn.send(r)
+    except Exception as e:  # noqa: BLE001
+        conn.send((job[0] + "-crash", job[1], {"error": "%s: result could not be sent: %s" % (_job_id(job), e), "trace": ""}))
+    finally:
+        conn.close()
+
+
+def _run_jobs(ctx, jobs, nproc, deadline):
+    from multiprocessing.connection import wait
+
+    pending = list(jobs)
+    running = {}
+    results = []
+    while pending or running:
+        while pending and len(running) < nproc:
+            job = pending.pop(0)
+            parent, child = ctx.Pipe(duplex=False)
+            p = ctx.Process(target=_child, args=(child, job))
+            p.start()
+            child.close()
+            running[parent] = (p, job)
+        ready = wait(list(running), timeout=1.0)
+        for conn in ready:
+            p, job = running.pop(conn)
+            try:
+                results.append(conn.recv())
+            except (EOFError, OSError):
+                p.join(5)
+                results.append((job[0] + "-crash", job[1], {"error": "%s: worker process died without a result (exit code %s: killed, e.g. out of memory)" % (_job_id(job), p.exitcode), "trace": ""}))
+            conn.close()
+            p.join(30)
+        if time.time() > deadline:
+            missing = [_job_id(job) for _p, job in running.values()] + [_job_id(job) for job in pending]
+            for p, _job in running.values():
+                p.terminate()
+            results.append(("deadline-crash", -1, {"error": "jobs did not finish before the deadline: %s" % ", ".join(missing[:8]), "trace": ""}))
+            break
+    return results
+
+
 def main(argv=None):
     ap = argparse.ArgumentParser()
     ap.add_argument("prop")
@@ -102,20 +165,11 @@ def main(argv=None):
     results = []
     if jobs:
         ctx = mp.get_context("fork")
-        # safety net: the check itself must terminate. A job that has not come back by the
-        # deadline is reported as a checker error (exit 3), never as "held".
+        # one forked process per job (at most --jobs at a time): a job that dies (out of memory,
+        # signal) or does not come back by the deadline is reported as a checker error (exit 3),
+        # never as "held", and cannot take the other jobs or the check itself down with it.
         deadline = time.time() + float(os.environ.get("VERIF_DEADLINE_S", "3000" if tier == "quick" else "21600"))
-        with ctx.Pool(min(a.jobs, len(jobs)), maxtasksperchild=8) as pool:
-            it = pool.imap_unordered(_worker, jobs, chunksize=1)
-            for _ in range(len(jobs)):
-                try:
-                    results.append(it.next(timeout=max(1.0, deadline - time.time())))
-                except mp.TimeoutError:
-                    done = {(k, i) for k, i, _r in results}
-                    missing = [engine.CONTRACTS[i].id if k == "contract" else (engine.BOUNDED[i].id if k == "bounded" else engine.PROTOCOLS[i].id) for k, i, *_ in jobs if (k, i) not in done and (k + "-crash", i) not in done]
-                    results.append(("deadline-crash", -1, {"error": "jobs did not finish before the deadline: %s" % ", ".join(missing[:8]), "trace": ""}))
-                    pool.terminate()
-                    break
+        results = _run_jobs(ctx, jobs, min(a.jobs, len(jobs)), deadline)
 
     # ------------------------------------------------------------------ aggregate
     exit_code = 0
